@@ -14,7 +14,8 @@ from traits.api import HasTraits, Int, Str, Instance, List, Dict, Set
 ID = "C16"
 LEVEL = "exploration"
 RULE = ("Hypothesis cases: extended name of 1-3 links x history of <=15 mutations (reassignments to None / fresh objects, list "
-        "append/pop/slice/reverse/sort/whole-value, dict set/pop/update mixing new and existing keys, set add/discard); "
+        "append/pop/slice/reverse/sort/whole-value, dict set/pop/update mixing new and existing keys, set add/discard), "
+        "registered plainly or with deferred=True; "
         "non-trivial = a link is re-pointed or a container item replaced/reordered before a probe; distinct by digest")
 ASSUMPTIONS = ["explicit values only (no pending defaults) and no sharing: the statement's precondition",
                "4-argument legacy handlers only; in-place container mutations are not part of the link-event comparison "
